@@ -202,7 +202,7 @@ class Finding:
 def parse_findings(out):
     fs, stats, ops, branch = [], {}, {}, {}
     for l in out.split("\n"):
-        m = re.match(r"(C-MISMATCH|A-FAIL|B-FAIL|H-FAIL|D-ERROR|T-MISMATCH)\s+(.*)$", l)
+        m = re.match(r"(C-MISMATCH|A-FAIL|B-FAIL|H-FAIL|K-FAIL|R-FAIL|G-FAIL|D-ERROR|T-MISMATCH)\s+(.*)$", l)
         if m:
             sm = re.search(r"script=(\S+)", l); st = re.search(r"step=(\d+)", l)
             fs.append(Finding(m.group(1), m.group(2), sm.group(1) if sm else None, int(st.group(1)) if st else None))
